@@ -170,7 +170,7 @@ func TestVerifNodex(t *testing.T) {
 			New:      func() verifkit.Instance { return nxInst{newC(cfg)} },
 			Describe: desc.describe, MaxStates: run.Pick(400000, 4000000), Workers: 1, Run: run, Res: sub, KeyOf: nxKey, Chain: true,
 			OnState: func(inst verifkit.Instance, path []uint32) {
-				if len(path) == 12 {
+				if len(path) >= 10 {
 					res.Sample(2, verifkit.PathString(path, desc.describe))
 				}
 				c := inst.(nxInst).c
